@@ -23,8 +23,9 @@ def run(ctx):
                 "ArgumentUnslicer/AnswerUnslicer")
     ctx.assumptions = ["text VALUES in wire trees are ASCII (keyword NAMES are arbitrary byte strings: not UTF-8 -> Violation, "
                        "Schema.utf8_valid compared with Python's decoder); set elements / dict keys are distinct and hashable",
-                       "regexp constraints, Copyable/Failure constraints, Shared, their-reference gifts and the CallUnslicer stages "
-                       "before the arguments are outside the model; RemoteInterface arguments: the receiver's side only (claimed "
+                       "regexp constraints, FailureConstraint, Shared and their-reference gifts are outside the model; RemoteCopy state "
+                       "under an AttributeDictConstraint stateSchema and the whole `call` sequence (CallUnslicer stages) are modelled "
+                       "(Schema.rc_run, Schema.recv_call_stream); RemoteInterface arguments: the receiver's side only (claimed "
                        "interface name vs declared), judged against `declared or a sub-interface`",
                        "ChoiceOf alternatives are token-level constraints in the generated families; ChoiceOf over containers (C12's "
                        "finding D7a on the current tree) is exercised as RESULT constraint by a fixed family",
@@ -38,6 +39,8 @@ def run(ctx):
     from harness import schema_impl as S
     from harness import implenv as E
     with E.quiet():
+        rcs = guarded(ctx, lambda ctx_, S_, E_: rc_cases(ctx_, S_, E_), S, E) or []
+        cseqs = guarded(ctx, lambda ctx_, S_, E_: callseq_cases(ctx_, S_, E_), S, E) or []
         calls = call_cases(ctx, S, E)
         answers = answer_cases(ctx, S, E)
     model_ok = ok
@@ -46,6 +49,8 @@ def run(ctx):
         model_ok = ok2
     if model_ok:
         correspond(ctx, S, calls, answers)
+        correspond_rc(ctx, S, rcs)
+        correspond_callseq(ctx, S, cseqs)
     else:
         ctx.note("model does not build: correspondence skipped")
     if not ok and not unknown_failures():
@@ -574,6 +579,237 @@ def method_name_cases(ctx, S, E):
             ctx.fail("oracle/sibling-affected", "after a refused call the connection no longer serves other calls: %r" % (case,), replay=case)
 
 
+# ------------------------------------------------------------------------------- the whole `call` sequence
+CALL_PROTOCOL_ERRORS = ("request ID must be an INT", "object ID must be an INT/NEG", "method name must be a STRING",
+                        "arguments must be an 'arguments' sequence", "too many objects given to CallUnslicer",
+                        "'call' sequence ended too early", "posarg count must be an INT", "kwarg name must be a STRING",
+                        "'arguments' sequence ended too early")
+
+
+def callseq_children():
+    """children of OPEN call, as functions of (clid of the target with m(a=int, b=Optional(bytes)), clid of an object
+    without RemoteInterface): the honest framing and every way of breaking it"""
+    five = ["wi", "INT", 5, 5]
+    rq, nm_ = ["wi", "INT", 1, 1], ["ws", False, 1, [109]]
+    ob = lambda c: ["wi", "INT", c, c]
+    args = ["wa", 1, [five]]
+    bad = ["wa", 1, [["ws", False, 1, [65]]]]
+    name = lambda n: ["ws", False, len(n), list(n.encode())]
+    return [
+        ("honest", lambda c, c2: [rq, ob(c), nm_, args]),
+        ("honest-kw", lambda c, c2: [rq, ob(c), nm_, ["wa", 0, [name("b"), ["ws", False, 1, [65]], name("a"), five]]]),
+        ("bad-argument", lambda c, c2: [rq, ob(c), nm_, bad]),
+        ("missing-argument", lambda c, c2: [rq, ob(c), nm_, ["wa", 0, []]]),
+        ("unknown-clid", lambda c, c2: [rq, ob(c + c2 + 77), nm_, args]),
+        ("unknown-negative-clid", lambda c, c2: [rq, ["wi", "NEG", 77, -77], nm_, args]),
+        ("unknown-method", lambda c, c2: [rq, ob(c), ["ws", False, 1, [120]], args]),
+        ("method-name-not-utf8", lambda c, c2: [rq, ob(c), ["ws", False, 2, [168, 97]], args]),
+        ("method-name-vocab", lambda c, c2: [rq, ob(c), ["ws", True, 4, list(b"list")], args]),
+        ("arguments-before-name", lambda c, c2: [rq, ob(c), args]),
+        ("arguments-first", lambda c, c2: [args]),
+        ("no-arguments", lambda c, c2: [rq, ob(c), nm_]),
+        ("empty", lambda c, c2: []),
+        ("two-arguments", lambda c, c2: [rq, ob(c), nm_, args, args]),
+        ("token-after-arguments", lambda c, c2: [rq, ob(c), nm_, args, five]),
+        ("list-instead-of-arguments", lambda c, c2: [rq, ob(c), nm_, ["wo", "list", [five]]]),
+        ("none-instead-of-arguments", lambda c, c2: [rq, ob(c), nm_, ["wo", "none", []]]),
+        ("token-instead-of-arguments", lambda c, c2: [rq, ob(c), nm_, five]),
+        ("reqid-neg", lambda c, c2: [["wi", "NEG", 1, -1], ob(c), nm_, args]),
+        ("reqid-string", lambda c, c2: [nm_, ob(c), nm_, args]),
+        ("clid-string", lambda c, c2: [rq, nm_, nm_, args]),
+        ("clid-longint", lambda c, c2: [rq, ["wi", "LONGINT", 5, 2 ** 39], nm_, args]),
+        ("name-int", lambda c, c2: [rq, ob(c), five, args]),
+        ("schemaless-object", lambda c, c2: [rq, ob(c2), nm_, ["wa", 1, [["ws", False, 1, [65]]]]]),
+        ("hostile-count", lambda c, c2: [rq, ob(c), nm_, ["wa", 2, [five]]]),
+        ("extra-positional", lambda c, c2: [rq, ob(c), nm_, ["wa", 3, [five, ["ws", False, 1, [65]], five]]]),
+    ]
+
+
+def callseq_cases(ctx, S, E):
+    recs = []
+    for tag, fn in callseq_children():
+        res, w, children = S.call_seq_trial(["a", "b"], [int, S.schema.Optional(bytes, None)], fn)
+        out = S.outcome_of(res)
+        case = dict(tag=tag, method="m(a=int, b=Optional(bytes))", children=children)
+        rec = dict(case=case, children=children, clid=w.clid, clid2=w.clid2, ms=ms_term(S, w.ms))
+        calls = w.target.calls
+        if calls:
+            rec["outcome"] = "invoked"
+            rec["args"] = [S.canon(x) for x in calls[0][1]]
+            rec["kwargs"] = sorted([n, S.canon(v)] for n, v in calls[0][2].items())
+            try:
+                w.ms.checkAllArgs(calls[0][1], calls[0][2], True)
+            except S.Violation as v:
+                ctx.fail("oracle/unchecked-argument-reached-user-code", "remote_m ran with arguments that violate its declared schema (%s): "
+                         "%r; call children %s" % (v, (rec["args"], rec["kwargs"]), str(children)[:600]), replay=case)
+        elif w.t2.calls:
+            rec["outcome"] = "noschema"
+        elif not w.alive():
+            rec["outcome"] = "dead"
+            errs = w.recv_errors
+            if errs and all(e.startswith("BananaError") and any(m in e for m in CALL_PROTOCOL_ERRORS) for e in errs):
+                ctx.hist("protocol-error-on-malformed-leaf", "call framing: " + [m for m in CALL_PROTOCOL_ERRORS if m in errs[0]][0])
+            elif tag in ("list-instead-of-arguments", "none-instead-of-arguments") and errs and all(e.startswith(("AssertionError", "AttributeError")) for e in errs):
+                # a sequence that is not `arguments` where the arguments belong: setConstraint(methodSchema) on its unslicer /
+                # `assert isinstance(token, ArgumentUnslicer)` -- framing, not a schema question
+                ctx.hist("protocol-error-on-malformed-leaf", "call framing: a sequence that is not `arguments` (assertion)")
+            elif errs and all(e.startswith("UnicodeDecodeError") for e in errs):
+                ctx.fail("oracle/non-utf8-keyword-name-drops-connection", "a method name that is not valid UTF-8 dropped the connection: %r; %r"
+                         % (case, errs), replay=case)
+            else:
+                classify_dead(ctx, w, "call-sequence", case, "call")
+        else:
+            rec["outcome"] = "violation"
+            if out[0] not in ("violation-local", "violation-remote"):
+                ctx.fail("oracle/not-a-violation", "the call was refused but the caller got %r instead of a Violation: %r" % (out, str(case)[:600]), replay=case)
+            if not w.probe():
+                ctx.fail("oracle/sibling-affected", "after a refused call the connection no longer serves other calls: %r" % (case,), replay=case)
+        ctx.hist("call_sequence_outcome", "%s: %s" % (tag, rec["outcome"]))
+        ctx.case(["call-sequence", tag], nontrivial=True)
+        recs.append(rec)
+    return recs
+
+
+def correspond_callseq(ctx, S, recs):
+    if not recs:
+        return
+    def citem(ch):
+        if ch[0] == "wa":
+            cnt = [] if ch[1] is None else ["(WInt 129 %d %d)" % (ch[1], ch[1])] if isinstance(ch[1], int) else [S.to_wobj(ch[1])]
+            return "(CArgs %s)" % coq_list(cnt + [S.to_wobj(x) for x in ch[2]])
+        return "(CTok %s)" % S.to_wobj(ch)
+    rows = []
+    for r in recs:
+        env = ("{| be_objs := [(%d, {| t_iface := Some [(%d, %s)]; t_methodSchema := None |}); (%d, {| t_iface := None; t_methodSchema := None |})]; "
+               "be_require := false; be_active := [] |}" % (r["clid"], nm("m"), r["ms"], r["clid2"]))
+        ea = coq_list([S.to_obj(x) for x in r.get("args", [])])
+        ek = coq_list(["(%d, %s)" % (nm(n), S.to_obj(x)) for n, x in r.get("kwargs", [])])
+        rows.append("(%s, %s, %s, %s)" % (env, coq_list([citem(c) for c in r["children"]]), ea, ek))
+    body = EQB + "Definition cases : list (benv * list citem * list obj * list (Z * obj)) := " + coq_list(rows) + ".\n" + """
+Definition kw_same2 (a b : list (Z * obj)) : bool :=
+  (List.length a =? List.length b)%nat && forallb (fun x => existsb (fun y => Z.eqb (fst x) (fst y) && obj_eqb (snd x) (snd y)) b) a.
+Eval vm_compute in map (fun x => let '(env, kids, ea, ek) := x in
+  match recv_call_stream env kids with
+  | QInvoke _ _ _ a' kw' => if list_eqbw obj_eqb ea a' && kw_same2 ek kw' then 1 else 4
+  | QViol => 2 | QAbort => 3 | QFail => 5 | QNoSchema => 6 end) cases.
+"""
+    try:
+        (vals,) = ctx.coq_eval("C02_callseq", body, requires=REQ)
+    except common.CoqEvalError as e:
+        ctx.fail("correspondence/broken", "the model could not be evaluated: " + str(e)[-1500:], replay=None, has_input=False)
+        return
+    CODE = {"invoked": 1, "violation": 2, "dead": 3, "noschema": 6}
+    for r, m in zip(recs, vals):
+        ctx.traces += 1
+        if m != CODE[r["outcome"]]:
+            ctx.fail("correspondence/call-sequence", "model and implementation disagree on %s: model code %r (1 invoked with the same "
+                     "arguments, 2 violation, 3 connection lost, 4 invoked with other arguments, 6 no schema in force), implementation %s %r"
+                     % (str(r["case"])[:1200], m, r["outcome"], r.get("args")), replay=dict(case=r["case"], model=m), has_input=False)
+    ctx.extra["call_sequence_cases"] = len(recs)
+
+
+# ------------------------------------------------------------------------------- RemoteCopy state under a stateSchema
+_rc_counter = [0]
+RC_ATTRS = [("a", ["py", "int"], False), ("b", ["tuple", [["int", None], ["int", None]]], False), ("c", ["list", ["int", None], 2, 0], True)]
+
+
+def rc_streams(S):
+    five, lst = ["wi", "INT", 5, 5], ["wo", "list", [["wi", "INT", 5, 5]]]
+    name = lambda n: ["ws", False, len(n.encode()), list(n.encode())]
+    pair = ["wo", "tuple", [five, five]]
+    return [
+        [name("a"), five, name("b"), pair], [name("b"), pair, name("a"), five, name("c"), lst],
+        [name("a"), five], [], [name("c"), lst],                                                  # required attributes missing
+        [name("a"), S.slice_vs(["t", [120]]), name("b"), pair],                                   # wrong type
+        [name("a"), five, name("b"), ["wo", "tuple", [five]]],                                    # a 1-tuple for TupleOf(int, int)
+        [name("a"), five, name("b"), pair, name("c"), ["wo", "list", [five, five, five]]],        # a third member under maxLength 2
+        [name("a"), five, name("b"), pair, name("z"), five], [name("z"), lst, name("a"), five, name("b"), pair],   # unknown names
+        [name("a"), five, name("a"), five],                                                       # duplicate name
+        [name("a"), five, name("b")],                                                             # a name without its value
+        [["ws", False, 2, [168, 97]], five], [name("a"), five, ["ws", False, 3, [237, 160, 128]], five],   # names that are not UTF-8
+        [["ws", False, 2, [195, 169]], five],                                                     # an unknown non-ASCII text name
+        [five, five], [["wo", "list", []], five],                                                 # a value where a name is expected
+    ]
+
+
+def rc_cases(ctx, S, E):
+    """a RemoteCopy class whose stateSchema is AttributeDictConstraint(a=int, b=TupleOf(int, int), c=Optional(ListOf(int,
+    maxLength=2))) -- plain, ignoreUnknown, acceptUnknown -- and one without stateSchema; the copyable sequence arrives as
+    the argument of m(a=Any) with hand-chosen children.  THE PROPERTY: the state handed to setCopyableState satisfies
+    the declared stateSchema, and a non-conforming sequence fails that one call with a Violation."""
+    from foolscap import copyable, call as callmod
+    from foolscap.copyable import AttributeDictConstraint
+    recs = []
+    todo = []
+    for pth in sorted(glob.glob(os.path.join(common.VERIF, "corpus", "C02", "remotecopy-*.json"))):      # regression witnesses first
+        wj = json.load(open(pth))
+        todo.append((wj["mode"], wj["children"], wj.get("expect"), os.path.basename(pth)[:-5]))
+    for mode in ("plain", "ignoreUnknown", "acceptUnknown", "no-schema"):
+        for items in rc_streams(S):
+            todo.append((mode, items, None, None))
+    if True:
+        for mode, items, expect, witness in todo:
+            _rc_counter[0] += 1
+            tname = "verif.rc%04d" % _rc_counter[0]
+            seen = []
+            kw = {mode: True} if mode in ("ignoreUnknown", "acceptUnknown") else {}
+            ss = None if mode == "no-schema" else AttributeDictConstraint(
+                *[(n, S.schema.Optional(S.build(cs), None) if opt else S.build(cs)) for n, cs, opt in RC_ATTRS], **kw)
+
+            class RC(copyable.RemoteCopy):
+                copytype = tname
+                stateSchema = ss
+
+                def setCopyableState(self, state, _seen=seen):
+                    _seen.append(dict(state))
+                    self.__dict__.update(state)
+            res, w = S.call_trial(["a"], [S.schema.Any()], [], [], raw=(1, [["wc", tname, items]]))
+            out = S.outcome_of(res)
+            case = dict(stateSchema=mode, attributes=RC_ATTRS, children=items)
+            rec = dict(case=case, mode=mode, items=items)
+            ran = len(w.target.calls)
+            if ran:
+                rec["outcome"] = "invoked"
+                state = seen[-1] if seen else {}
+                rec["state"] = sorted([n, S.canon(v)] for n, v in state.items())
+                if mode != "no-schema":
+                    by = {n: (cs, opt) for n, cs, opt in RC_ATTRS}
+                    why = [n for n, v in state.items() if (n in by and not S.py_satisfies(by[n][0], v)) or (n not in by and mode != "acceptUnknown")]
+                    why += ["missing " + n for n, (cs, opt) in by.items() if not opt and n not in state]
+                    if why:
+                        ctx.fail("oracle/remotecopy-state-unchecked", "setCopyableState of a RemoteCopy whose stateSchema is %s(a=int, "
+                                 "b=TupleOf(int,int), c=Optional(ListOf(int, maxLength=2))) received the state %r, which violates it (%s): "
+                                 "RemoteCopyUnslicer.receiveClose does not apply the stateSchema; children %s"
+                                 % (mode, rec["state"], ", ".join(why), str(items)[:300]), replay=case)
+            elif not w.alive():
+                rec["outcome"] = "dead"
+                errs = w.recv_errors
+                if errs and all(e.startswith("AssertionError") for e in errs) and mode == "ignoreUnknown":
+                    ctx.fail("oracle/attrdict-ignore-unknown-drops-connection", "an attribute name the stateSchema does not declare, under "
+                             "AttributeDictConstraint(ignoreUnknown=True), tripped `assert accept` in RemoteCopyUnslicer.receiveChild: the "
+                             "whole connection was lost: %s" % (str(case)[:500],), replay=case)
+                elif errs and all(e.startswith("UnicodeDecodeError") for e in errs):
+                    ctx.fail("oracle/non-utf8-attribute-name-drops-connection", "an attribute name that is not valid UTF-8 raised "
+                             "UnicodeDecodeError in RemoteCopyUnslicer.receiveChild (six.ensure_str): the whole connection was lost "
+                             "instead of that one call failing with a Violation: %s" % (str(case)[:500],), replay=case)
+                elif errs and all(e.startswith("BananaError") and ("duplicate attribute name" in e or "keys must be STRINGs" in e) for e in errs):
+                    ctx.hist("protocol-error-on-malformed-leaf", "copyable: " + ("duplicate attribute name" if "duplicate" in errs[0] else "keys must be STRINGs"))
+                else:
+                    classify_dead(ctx, w, "remotecopy", case, "call")
+            else:
+                rec["outcome"] = "violation"
+                if out[0] not in ("violation-local", "violation-remote"):
+                    ctx.fail("oracle/not-a-violation", "the call was refused but the caller got %r instead of a Violation: %r" % (out, str(case)[:600]), replay=case)
+                if not w.probe():
+                    ctx.fail("oracle/sibling-affected", "after a refused call the connection no longer serves other calls: %r" % (case,), replay=case)
+            if expect and rec["outcome"] != expect:
+                ctx.fail("oracle/regression-" + witness, "corpus witness %s: expected %s, got %s" % (witness, expect, rec["outcome"]), replay=case)
+            ctx.hist("remotecopy_outcome", "%s/%s" % (mode, rec["outcome"]))
+            ctx.case(["remotecopy", mode, items], nontrivial=True)
+            recs.append(rec)
+    return recs
+
+
 def call_cases(ctx, S, E):
     rng = ctx.rng
     recs = []
@@ -674,6 +910,15 @@ FIXED_ANSWERS = [
     ("d6-forged-int", ["int", -1], ["wi", "INT", 2 ** 40, 2 ** 40]),
     ("d6-empty-bool", ["py", "bool"], ["wo", "boolean", []]),
     ("text-body-over-6x", ["text", 1, 0], ["wo", "unicode", [["ws", False, 7, [97] * 7]]]),
+    ("d6-int-token-over-maxbytes", ["int", 4], ["wi", "INT", 2 ** 40, 2 ** 40]),
+    ("d6-none-under-choice-of-list", ["choice", [["list", ["any"], None, 0]]], ["wo", "none", []]),
+    ("d6-frozenset-under-mutable-set", ["set", ["int", None], None, True], ["wo", "immutable-set", []]),
+    ("d6-empty-list-negative-maxlength", ["list", ["int", None], -1, 0], ["wo", "list", []]),
+    ("d6-empty-list-minlength", ["list", ["int", None], None, 1], ["wo", "list", []]),
+    ("bounded-dict-ok", ["dict", ["bytes", None, 0], ["list", ["set", ["int", None], 1, None], 2, 0], 1],
+     ["wo", "dict", [["ws", False, 1, [107]], ["wo", "list", [["wo", "set", [["wi", "INT", 5, 5]]], ["wo", "immutable-set", []]]]]]),
+    ("bounded-dict-third-member", ["dict", ["bytes", None, 0], ["list", ["set", ["int", None], 1, None], 2, 0], 1],
+     ["wo", "dict", [["ws", False, 1, [107]], ["wo", "list", [["wo", "set", []], ["wo", "set", []], ["wo", "set", []]]]]]),
     ("ok-tuple", ["tuple", [["py", "int"], ["py", "int"]]], ["wo", "tuple", [["wi", "INT", 7, 7], ["wi", "INT", 8, 8]]]),
     ("wrong-type", ["py", "int"], ["ws", False, 1, [65]]),
 ]
@@ -833,6 +1078,40 @@ def answer_cases(ctx, S, E):
 
 
 # --------------------------------------------------------------------------------------------------------------- model
+def correspond_rc(ctx, S, rcs):
+    """RemoteCopy state: Schema.rc_run on the children against what the real RemoteCopyUnslicer did"""
+    if not rcs:
+        return
+    from foolscap.constraint import IConstraint
+    keys = coq_list(["{| a_name := %d; a_ctr := %s; a_opt := %s |}" % (nm(n), S.to_ctr(IConstraint(S.build(cs))), "true" if opt else "false")
+                     for n, cs, opt in RC_ATTRS])
+    sch = {"plain": "(Some {| as_keys := KEYS; as_ignore := false; as_accept := false |})",
+           "ignoreUnknown": "(Some {| as_keys := KEYS; as_ignore := true; as_accept := false |})",
+           "acceptUnknown": "(Some {| as_keys := KEYS; as_ignore := false; as_accept := true |})", "no-schema": "None"}
+    rows = ["(%s, %s, %s)" % (sch[r["mode"]], coq_list([S.to_wobj(x) for x in r["items"]]),
+                              coq_list(["(%d, %s)" % (nm(n), S.to_obj(v)) for n, v in r.get("state", [])])) for r in rcs]
+    body = EQB + "Definition KEYS : list argspec := " + keys + ".\nDefinition cases : list (option attrschema * list wobj * list (Z * obj)) := " + \
+        coq_list(rows) + ".\n" + """
+Definition st_same (a b : list (Z * obj)) : bool :=
+  (List.length a =? List.length b)%nat && forallb (fun x => existsb (fun y => Z.eqb (fst x) (fst y) && obj_eqb (snd x) (snd y)) b) a.
+Eval vm_compute in map (fun x => let '(s, items, es) := x in
+  match rc_run s [] items with ADeliver d => if st_same es d then 1 else 4 | AViol => 2 | AAbort => 3 end) cases.
+"""
+    try:
+        (vals,) = ctx.coq_eval("C02_remotecopy", body, requires=REQ)
+    except common.CoqEvalError as e:
+        ctx.fail("correspondence/broken", "the model could not be evaluated: " + str(e)[-1500:], replay=None, has_input=False)
+        return
+    CODE = {"invoked": 1, "violation": 2, "dead": 3}
+    for r, m in zip(rcs, vals):
+        ctx.traces += 1
+        if m != CODE[r["outcome"]]:
+            ctx.fail("correspondence/remotecopy", "model and implementation disagree on %s: model code %r (1 delivered with the same state, "
+                     "2 violation, 3 connection lost, 4 delivered with another state), implementation %s %r"
+                     % (str(r["case"])[:1200], m, r["outcome"], r.get("state")), replay=dict(case=r["case"], model=m), has_input=False)
+    ctx.extra["remotecopy_cases"] = len(rcs)
+
+
 def correspond(ctx, S, calls, answers):
     nbad = 0
 
